@@ -9,6 +9,7 @@ import SeataModel.Driver.C07
 import SeataModel.Driver.C19
 import SeataModel.Driver.C14
 import SeataModel.Driver.C15
+import SeataModel.Driver.C08
 
 open Seata.Driver
 
@@ -21,6 +22,7 @@ def dispatch (prop : String) (ws : List String) : String :=
   | "C19" => C19.handle ws
   | "C14" => C14.handle ws
   | "C15" => C15.handle ws
+  | "C08" => C08.handle ws
   | _ => "bad-prop"
 
 partial def loop (hin : IO.FS.Stream) (hout : IO.FS.Stream) : IO Unit := do
